@@ -292,6 +292,55 @@ class Slice:
                     self.consts.add(o["def"].split("::")[-1])
 
 
+def closure_calls(prog, v):
+    """Non-plumbing local calls inside closures this body hands to a callee: [(closure key, closure view, block, call,
+    callee, parent block)]."""
+    out = []
+    for bi, t in v.calls():
+        cks = [a["def"] for a in t["fn"].get("args", []) if a.get("k") == "closure" and a.get("def") in prog.bodies]
+        for ck in cks:
+            cv = prog.view(ck, v.cfg)
+            for cbi, ct in cv.calls():
+                n = ir.callee_name(ct["fn"])
+                if n in prog.bodies and not is_plumbing(n) and prog.bodies[n]["kind"] != "Closure":
+                    out.append((ck, cv, cbi, ct, n, bi))
+    return out
+
+
+def upvar_of(cv, op, depth=8):
+    """Index of the captured variable an operand of a closure body is a copy / reborrow of, or None."""
+    while depth > 0:
+        depth -= 1
+        if op.get("o") not in ("copy", "move"):
+            return None
+        if op["l"] == 1:
+            fs = [e for e in op["p"] if isinstance(e, list) and e[0] == "f"]
+            return fs[0][1] if len(fs) == 1 else None
+        if [e for e in op["p"] if e != "deref"]:
+            return None
+        d = cv.single_def(op["l"])
+        if d is None or d[1] == "term":
+            return None
+        rv = d[2]["rv"]
+        if rv["r"] == "use":
+            op = rv["a"]
+        elif rv["r"] == "ref":
+            op = {"o": "copy", "l": rv["pl"]["l"], "p": rv["pl"]["p"]}
+        else:
+            return None
+    return None
+
+
+def captured_operand(v, ck, k):
+    """The operand of the parent body captured as upvar k of closure ck."""
+    for bi in v.reachable:
+        for s in v.blocks[bi]["stmts"]:
+            if s["s"] == "assign" and s["rv"]["r"] == "agg" and s["rv"].get("kind") == "closure" and s["rv"].get("def") == ck:
+                ops = s["rv"]["ops"]
+                return ops[k] if k < len(ops) else None
+    return None
+
+
 def run(ctx, config="all", traits=None, floor=None):
     """traits: restrict to the core::ops / Sum / Product impls on Uint of these traits (e.g. {"Sub", "SubAssign"}): the
     operator surface of one arithmetic property; floor: the number of such impls counted by hand."""
@@ -397,6 +446,40 @@ def run(ctx, config="all", traits=None, floor=None):
                 rep.violation(key, where, "%s is expected to be composed of %s; calls %s" % (
                     fk, " or ".join(str(w) for w in want), names))
             continue
+        if len(calls) == 0:
+            # the delegate call sits in a closure handed to a combinator: `try_from(rhs).map_or(ZERO, |r| self.op(r))`,
+            # `n.to_u128().and_then(|n| Self::try_from(n).ok())`
+            cc = closure_calls(prog, v)
+            if len(cc) == 1:
+                ck, cv, cbi, ct, dname, pbi = cc[0]
+                d = prog.bodies[dname]
+                allowed = [b["name"]] + EXPLICIT.get(fk, [])
+                ok = any((d["name"] == a.split(":", 1)[0] and a.split(":", 1)[1] in dname) if ":" in a else
+                         (d["name"] == a or norm_op(d["name"]) == norm_op(a)) for a in allowed)
+                if not ok:
+                    rep.violation(key, where, "%s forwards (inside a closure) to %s; the oracle table allows only %s" % (
+                        fk, short(dname), allowed))
+                    continue
+                bad = None
+                for j, a in enumerate(ct["args"]):
+                    up = upvar_of(cv, a)
+                    if up is None:
+                        continue      # the value the combinator hands to the closure: not decided
+                    cap = captured_operand(v, ck, up)
+                    if cap is None:
+                        continue
+                    sl = Slice(v)
+                    sl.operand(cap)
+                    if sl.params and sl.params != {j + 1} and not (fk in COMMUTATIVE and len(sl.params) == 1):
+                        bad = "argument %d of the delegate (captured by the closure) derives from parameter(s) %s of the " \
+                              "facade (expected parameter %d): operands swapped" % (j, sorted(sl.params), j + 1)
+                        break
+                if bad:
+                    rep.violation(key + "|args", where, "%s -> %s: %s" % (fk, short(dname), bad))
+                else:
+                    rep.ok(key, where, "%s -> %s (inside a closure handed to a combinator; the value the combinator passes "
+                                       "on is not decided)" % (fk, short(dname)))
+                continue
         if len(calls) != 1:
             # Shl<Uint>/Shr<Uint>: wrapping_sh*(self, amount read from rhs) -- the amount read is R-LOWLIMB's business
             if fk in ("Shl::shl", "Shr::shr") and len(calls) == 1:
